@@ -6,6 +6,11 @@ Part 1 (types)   explicit enumeration of ALL ORDERS OF FIRST USE of every set of
                  equivalence "restored dictionaries == fresh process" is itself checked against forked
                  children for every single expression and a grid of ordered pairs).  After every prefix the
                  full invariant is evaluated on everything that exists in the caches.
+                 Restore, not fork-per-order: the eight dictionaries are the only place cohdl keeps the created
+                 classes (no other registry, `__subclasses__` is never consulted, nothing is created at import:
+                 all eight are empty), the classes' bases are other cached classes or import-time classes, and
+                 this part runs before any compilation, so no compiler-side cache can hold a dropped class.
+                 (A fork costs 0.15 s here; 3.5 million orders are only feasible in-process.)
 Part 2 (pyview)  every view chain on an object of each qualifier kind, Python level: root/qualifier preserved,
                  storage shared (Bit identity through the public API), read-through and write-through by value
                  with every write API usable outside synthesizable contexts.
@@ -31,15 +36,17 @@ SPECS = {
     # quick: Q x {BitVector, Unsigned, Signed}[1..4] + bare families + Bit/bool/int ...
     "q3": (dict(widths=(1, 2, 3, 4), arr_elems=[], arr_counts=(), upto_widths=()), 3),
     # ... arrays and ascending ranges together with the width-2 vectors they are built from
-    "qarr": (dict(widths=(2,), arr_elems=_ARR3, arr_counts=(1, 2), upto_widths=(2,), bare=False), 3),
+    "qarr": (dict(widths=(2,), arr_elems=_ARR3, arr_counts=(1, 2), upto_widths=(2,), bare=False,
+                  qkinds=[("Signal", None), ("Variable", None), ("Port", "IN"), ("Port", "OUT")]), 3),
     "qroutes": (dict(widths=(2,), arr_elems=[], arr_counts=(), upto_widths=(), route_widths=(2,), slice_widths=(2,),
                      qkinds=[("Signal", None), ("Temporary", None), ("Port", "IN"), ("Port", "OUT")]), 3),
-    "t3": (dict(widths=(1, 2, 3, 4, 5, 6), arr_elems=_ARR3 + [("S", "D", 3)], arr_counts=(1, 2, 3), upto_widths=(2, 3)), 3),
+    "t3": (dict(widths=(1, 2, 3, 4, 5, 6), arr_elems=_ARR3 + [("S", "D", 3)], arr_counts=(2, 3), upto_widths=(3,)), 3),
     "t4mix": (dict(widths=(1, 2, 3), arr_elems=[], arr_counts=(), upto_widths=(), bare=False, atoms=False,
                    qkinds=[("Signal", None), ("Port", "IN"), ("Variable", None)]), 4),
     "t4arr": (dict(widths=(2,), arr_elems=_ARR3, arr_counts=(1, 2), upto_widths=(), bare=False,
                    qkinds=[("Signal", None), ("Port", "OUT"), ("Variable", None)]), 4),
-    "troutes": (dict(widths=(1, 2), arr_elems=[], arr_counts=(), upto_widths=(), route_widths=(1, 2), slice_widths=(1, 2)), 3),
+    "troutes": (dict(widths=(1, 2), arr_elems=[], arr_counts=(), upto_widths=(), route_widths=(1, 2), slice_widths=(1, 2),
+                     qkinds=[("Signal", None), ("Variable", None), ("Temporary", None), ("Port", "IN"), ("Port", "INOUT")]), 3),
 }
 for _n in range(1, 7):
     SPECS[f"t4w{_n}"] = (dict(widths=(_n,), arr_elems=[], arr_counts=(), upto_widths=(), atoms=False), 4)
@@ -151,8 +158,9 @@ def part_types(run: Run):
             tot += per
         expected_nodes += tot
         if name in ("q3", "qarr", "t3"):
-            for e in usable[:: max(1, n // 3)][:3]:
-                run.sample({"type_expression": T.etext(e)})
+            pick = usable[n // 2:: max(1, n // 7)][:3]
+            run.sample({"order_of_first_use": [T.etext(e) for e in reversed(pick)], "alphabet": name,
+                        "alphabet_size": n, "max_length": depth})
         # ground truth for the restore technique: the same orders in forked children of this (pristine) process
         fork_sigs = {}
         if name in ("q3", "t3", "troutes"):
